@@ -353,7 +353,8 @@ class World:
         CTL.tls.tid = tid
         CTL.tls.atomic = 0
         CTL.tls.section = None
-        res = {"status": None, "times": [], "msgs": 0, "body": "", "chunks": 0, "closed_early": False, "exc": None}
+        res = {"status": None, "times": [], "msgs": 0, "body": "", "chunks": 0, "closed_early": False, "exc": None,
+               "close_error": None}
         out[tid] = res
         try:
             if CTL.mode == "line":
@@ -392,6 +393,8 @@ class World:
                 CTL.tls.atomic = CTL.atomic() + (1 if res["closed_early"] else 0)
                 try:
                     app_iter.close()
+                except RuntimeError as e:                     # "generator ignored GeneratorExit": what the WSGI server gets
+                    res["close_error"] = f"{type(e).__name__}: {e}"
                 finally:
                     CTL.tls.atomic = 0
             res["chunks"] = len(chunks)
@@ -702,7 +705,9 @@ def reference(scn, rec):
             key = "stream-completion-leaves-lock"
         else:
             key = "lock-leak"
-        out.append((key, f"all requests have ended but the instance is still locked (last acquired by request {last}, {kinds[last] if last is not None else '?'})"))
+        ce = o.get("close_error") if o is not None else None
+        out.append((key, f"all requests have ended but the instance is still locked (last acquired by request {last}, {kinds[last] if last is not None else '?'})"
+                    + (f"; closing its response was answered by {ce}: the generator yielded again while being closed and stays suspended in front of unlock()" if ce else "")))
     if stolen is not None:
         tid, held, at = stolen
         why = (f"request {tid} ({kinds[tid]}) was refused but ran unlock() on its way out and cleared the lock held by "
@@ -996,8 +1001,11 @@ PROGRAM_PATHS = [
     ("stream_complete", "s", 0, 1, {}),
     ("stream_error", "s", 0, 2, {"fail": 1}),
     ("stream_gone0", "s", 0, 1, {"gone": 0}),
+    ("stream_gone1", "s", 0, 1, {"gone": 1}),
     ("stream_gone2", "s", 0, 1, {"gone": 2}),
+    ("stream_gone3", "s", 0, 1, {"gone": 3}),
     ("stream_gone4", "s", 0, 1, {"gone": 4}),
+    ("stream_gone5", "s", 0, 1, {"gone": 5}),
     ("stream_refused", "s", 0, 5, {"locked": True}),
 ]
 
@@ -1032,10 +1040,13 @@ def trace_program(world, kind, n, stop, opt):
         return prev_sim(rself, *a, **kw)
 
     lines = set()
+    gen_line = [None]
 
     def local(frame, event, arg):
         if event == "line":
             stub.cur = (TRACER.codes[frame.f_code], frame.f_lineno)
+            if stub.cur[0].endswith(".streamer"):
+                gen_line[0] = frame.f_lineno                 # where the generator is (about to be) suspended
             lines.add(stub.cur)
             stub.after_read()
         elif event == "return":
@@ -1051,7 +1062,7 @@ def trace_program(world, kind, n, stop, opt):
     body = {"settings": {}}
     if kind == "r":
         body["numberSteps"] = n
-    out = {"status": None, "chunks": 0, "exc": None}
+    out = {"status": None, "chunks": 0, "exc": None, "close_error": None, "gone_line": None}
     real = entry["instance"]
     entry["instance"] = stub
     runner.run_scenario_step = run_scenario_step
@@ -1068,6 +1079,7 @@ def trace_program(world, kind, n, stop, opt):
                             if opt.get("gone") is not None and out["chunks"] == opt["gone"]:
                                 stub.rec("GONE")
                                 stub.folding = True
+                                out["gone_line"] = gen_line[0]
                                 break
                             try:
                                 next(it)
@@ -1076,7 +1088,10 @@ def trace_program(world, kind, n, stop, opt):
                             out["chunks"] += 1
                             stub.rec("Y")
                     finally:
-                        rv.close()
+                        try:
+                            rv.close()
+                        except RuntimeError as e:            # generator ignored GeneratorExit
+                            out["close_error"] = f"{type(e).__name__}: {e}"
             except InjectedError:
                 out["status"] = 500                              # run-step lets the error through: Flask answers 500
             except Exception as e:                               # noqa: BLE001 — recorded, judged by the comparison
@@ -1167,12 +1182,12 @@ def program_obligations(progs, facts):
         labs = labs.split(",")
         mine = [l for a, l in zip(full, labs) if a[:-1] == "0" and l not in ("NOOP", "END")]
         done = ths.split(";")[0].split(":")[4] == "done"
-        ok = mine == o["labels"] and done and o["exc"] is None
+        ok = mine == o["labels"] and done                     # exactly what the Lean obligation states
         lk = "[" + ", ".join(LEAN_KIND.get(k, f".runSteps {n}") for k, n in kinds) + "]"
         ev = {"g": ".go", "f": ".fail", "x": ".gone"}
         ls = "[" + ", ".join(f"({a[:-1]}, {ev[a[-1]]})" for a in full) + "]"
         want = "[" + ", ".join("." + l for l in o["labels"]) + "]"
-        out.append({"name": o["name"], "ok": ok, "model": mine, "impl": o["labels"], "model_done": done,
+        out.append({"name": o["name"], "ok": ok, "exc": o["exc"], "model": mine, "impl": o["labels"], "model_done": done,
                     "lean": f"theorem prog_{o['name']} : progOk cfg {o['stop']} {lk} {ls} 0 {want} = {'true' if ok else 'false'} := by decide"})
     return out
 
@@ -1345,6 +1360,7 @@ def session_run(world, kind, stop, k, which, ename, fail, gone, nosession):
             p0 = pending.get(0) if 0 in enabled else None
             left_unlock = st.get("in_unlock", False) and not (isinstance(p0, tuple) and p0[0] == "bptk.unlock")
             st["a_done_before"] = 0 not in enabled or left_unlock or any(l[0] == 0 and l[1] == "CL" for l in CTL.log)
+            st["a_pending"] = pending.get(0) if 0 in enabled else None
             st["sreq"] = session_request(world, which)
             st["at"] = len(CTL.log)
             st["phase"] = 1
@@ -1363,6 +1379,7 @@ def session_run(world, kind, stop, k, which, ename, fail, gone, nosession):
         st["sreq"] = session_request(world, which)
         st["at"] = len(rec["log"])
     flag_after = world.is_locked_now()
+    clock_after = world.clock()
     b = world._begin()
     world.rewrap()
     alive = world.client.post(f"/{world.id}/run-step", json={"settings": {}})
@@ -1370,8 +1387,8 @@ def session_run(world, kind, stop, k, which, ename, fail, gone, nosession):
     if world.is_locked_now():
         world.flag_force(False)
     r = {"scn": scn, "k": k, "which": which, "ending": ename, "nosession": nosession, "log": rec["log"], "out": rec["out"],
-         "sreq": st["sreq"], "at": st["at"], "flag_after": flag_after, "live": live, "a_steps": st["a_steps"],
-         "a_done_before": st["a_done_before"]}
+         "sreq": st["sreq"], "at": st["at"], "flag_after": flag_after, "clock_after": clock_after, "live": live, "a_steps": st["a_steps"],
+         "a_done_before": st["a_done_before"], "a_pending": st.get("a_pending")}
     if nosession:
         r["a_tried_before"] = st["a_tried_before"]
     else:
@@ -1409,6 +1426,61 @@ def session_events(r):
     return ev, live, obs + lobs
 
 
+def clock_events(r):
+    """the run as a schedule of the session clock machine and the real results log as (session state number, time)"""
+    log = r["log"]
+    ev, real = [], []
+    epoch = 0
+    injected = False
+    tried, ended = set(), set()
+
+    def inject():
+        nonlocal epoch
+        ev.append(SREQ[r["which"]])
+        if r["which"] in ("begin", "restore") and r["sreq"] == "done":
+            epoch += 1
+    nxt = {}
+    for i, l in enumerate(log):                        # for every entry: the next unfolded entry of the same request
+        pass
+    unf = [(i, l) for i, l in enumerate(log) if not l[3]]
+    for pos, (i, l) in enumerate(unf):
+        nxt[i] = next((m[1] for j, m in unf[pos + 1:] if m[0] == l[0]), None)
+    # a request parked INSIDE an access to session_state (the dict object is already looked up) performs that access on the
+    # old state object: with respect to the session request the access comes first
+    early = None
+    if r.get("a_pending") in ("RS", "WS"):
+        early = next((i for i, l in unf if i >= r["at"] and l[0] == 0), None)
+
+    def emit(i, l):
+        t, lab, info, folded = l
+        if lab == "RS" and nxt.get(i) == "SIM":
+            ev.append(f"r{t}")
+        elif lab == "WS":
+            ev.append(f"w{t}")
+            real.append((epoch, int(round(info)) - 1))
+    for i, l in enumerate(log):
+        if not injected and i >= r["at"]:
+            if early is not None:
+                emit(early, log[early])
+            inject()
+            injected = True
+        t, lab, info, folded = l
+        if lab == "CL":
+            if t in tried and t not in ended and not _refused_as_locked(r["out"][t]):
+                ev.append(f"f{t}"); ended.add(t)
+            continue
+        if folded or i == early:
+            continue
+        if t not in tried and (lab in ("TAS", "SL") or (lab == "RL" and _refused_as_locked(r["out"][t]))):
+            tried.add(t)
+            ev.append(f"a{t}")
+        else:
+            emit(i, l)
+    if not injected:
+        inject()
+    return ev, real, epoch
+
+
 def judge_session_run(r):
     """the statement on a run with a session request: [(key, text)]"""
     out = []
@@ -1441,6 +1513,123 @@ def session_replay_of(r, text):
             "actions": [f"{t}:{l}" for t, l, i, f in r.get("log", []) if not f], "session_request_at": r.get("at"),
             "responses": [{"status": o["status"], "times": o["times"], "body": o["body"][:80]} for o in r.get("out", [])],
             "liveness": r.get("live"), "observed": text}
+
+
+# ------------------------------------------------------------------------------------------- generator shape (wave 6)
+TOK_LEAN = {"y": ".yld", "u": ".unlock", "o": ".other", "r": ".ret", "T": ".tryB", "X1": ".exceptB true", "X0": ".exceptB false",
+            "F": ".finallyB", "E": ".endTry", "C1": ".condB true", "C0": ".condB false", "D1": ".endCond true", "D0": ".endCond false"}
+
+
+def streamer_shape():
+    """the body of the generator handed to the streaming Response, read off the real source with `ast`:
+    [(token, line)] — positions of the yields relative to try / except / finally and to the unlock() call."""
+    import ast, inspect, textwrap
+    from BPTK_Py.server.bptkServer import BptkServer
+    f = BptkServer._stream_steps_resource
+    f = getattr(f, "__wrapped__", f)
+    src = textwrap.dedent(inspect.getsource(f))
+    base = f.__code__.co_firstlineno - 1
+    tree = ast.parse(src)
+    gens = [n for n in ast.walk(tree) if isinstance(n, ast.FunctionDef) and n is not tree.body[0] and
+            any(isinstance(x, (ast.Yield, ast.YieldFrom)) for x in ast.walk(n))]
+    if not gens:
+        return None
+    gen = gens[0]
+
+    def has_yield(node):
+        return any(isinstance(x, (ast.Yield, ast.YieldFrom)) for x in ast.walk(node))
+
+    def is_unlock(node):
+        return isinstance(node, ast.Expr) and isinstance(node.value, ast.Call) and \
+            isinstance(node.value.func, ast.Attribute) and node.value.func.attr == "unlock"
+
+    def catches_exit(h):
+        if h.type is None:
+            return True
+        names = [h.type] if not isinstance(h.type, ast.Tuple) else list(h.type.elts)
+        return any(isinstance(n, ast.Name) and n.id in ("BaseException", "GeneratorExit") for n in names)
+    out = []
+
+    def block(stmts):
+        for st in stmts:
+            ln = st.lineno + base
+            if isinstance(st, ast.Try):
+                out.append(("T", ln))
+                block(st.body)
+                block(st.orelse)
+                for h in st.handlers:
+                    out.append(("X1" if catches_exit(h) else "X0", h.lineno + base))
+                    block(h.body)
+                if st.finalbody:
+                    out.append(("F", st.finalbody[0].lineno + base))
+                    block(st.finalbody)
+                out.append(("E", ln))
+            elif isinstance(st, ast.If):
+                if has_yield(st.test):
+                    out.append(("y", ln))
+                out.append(("C0", ln)); block(st.body); out.append(("D0", ln))
+                if st.orelse:
+                    out.append(("C0", ln)); block(st.orelse); out.append(("D0", ln))
+            elif isinstance(st, (ast.While, ast.For)):
+                out.append(("C1", ln))
+                if has_yield(st.test if isinstance(st, ast.While) else st.iter):
+                    out.append(("y", ln))
+                block(st.body)
+                out.append(("D1", ln))
+                if st.orelse:
+                    out.append(("C0", ln)); block(st.orelse); out.append(("D0", ln))
+            elif isinstance(st, ast.With):
+                block(st.body)
+            elif isinstance(st, (ast.Return, ast.Raise)):
+                out.append(("r", ln))
+            elif isinstance(st, (ast.FunctionDef, ast.ClassDef)):
+                out.append(("o", ln))
+            elif has_yield(st):
+                yl = next(x.lineno for x in ast.walk(st) if isinstance(x, (ast.Yield, ast.YieldFrom)))
+                out.append(("y", yl + base))
+            elif is_unlock(st):
+                out.append(("u", ln))
+            else:
+                out.append(("o", ln))
+    block(gen.body)
+    return out
+
+
+def shape_obligations(shape, facts, progs):
+    """kernel-decided shape fact + comparison of the predicted outcome of close() with what the traced gone-paths did"""
+    toks = [t for t, _ in shape]
+    rep = drive("C18", ["gclose " + ",".join(toks)])[0]
+    per, safe = rep.split("|")
+    safe = safe == "safe=1"
+    pred = {}
+    for x in per.split(";"):
+        if x:
+            k, u, st = x.split(":")
+            pred[int(k)] = (u == "1", st == "1")
+    line_of = {ln: i for i, (t, ln) in enumerate(shape) if t == "y"}
+    dyn = []
+    for o in progs:
+        if "gone" in o["opt"] and o.get("gone_line") is not None and o["status"] == 200:
+            k = line_of.get(o["gone_line"])
+            real = (not o["locked_at_end"], o["close_error"] is not None)
+            dyn.append({"path": o["name"], "yield_line": o["gone_line"], "token": k, "model": pred.get(k), "impl": real,
+                        "agree": k is not None and pred.get(k) == real})
+    b = lambda x: "true" if x else "false"
+    lean = ("/-! the generator handed to the streaming Response, read off the source with ast (token, source line): "
+            + " ".join(f"{t}@{ln}" for t, ln in shape) + " -/\n"
+            "def streamerShape : List Gen.Tok := [" + ", ".join(TOK_LEAN[t] for t in toks) + "]\n"
+            f"theorem streamer_close_safe : Gen.closeSafe streamerShape = {b(safe)} := by decide\n")
+    agree = facts["unlockOnClientGone"] == safe
+    if agree:
+        lean += "theorem shape_is_the_fact : cfg.unlockOnClientGone = Gen.closeSafe streamerShape := by decide\n"
+        if safe and facts["streamUnlocksOnDone"] and facts["unlockOnError"]:
+            lean += ("theorem holds_release_of_shape (stop : Nat) (ks : List Kind) (sched : Schedule) : ClRelease (run cfg (State.init stop ks) sched) :=\n"
+                     "  C18_release_of_shape cfg streamerShape (by decide) (by decide) (by decide) (by decide) stop ks sched\n"
+                     "#print axioms holds_release_of_shape\n")
+        if not safe:
+            lean += ("theorem violated_by_shape : ¬ C18_full cfg := C18_witness_client_gone cfg (by decide)\n"
+                     "#print axioms violated_by_shape\n")
+    return {"lean": lean, "safe": safe, "agree": agree, "pred": pred, "dynamic": dyn}
 
 
 # ------------------------------------------------------------------------------------------- probes
@@ -1509,7 +1698,7 @@ def gen_sessions(sf):
     return t, mutex_ok, leak_free
 
 
-def gen_lean(f, progs=(), sf=None):
+def gen_lean(f, progs=(), sf=None, shape=None):
     b = lambda x: "true" if x else "false"
     cfg = ", ".join(f"{k} := {b(f[k])}" for k in FACTS)
     body = ""
@@ -1535,6 +1724,8 @@ def gen_lean(f, progs=(), sf=None):
              "#print axioms holds_solo\n#print axioms C18_partial\n")
     if sf is not None:
         body += gen_sessions(sf)[0]
+    if shape is not None:
+        body += shape["lean"]
     if progs:
         body += "/-! thread programs: the accesses recorded from each handler run alone against the recording stub -/\n"
         for o in progs:
@@ -1571,7 +1762,11 @@ def _run(chk, world):
     sfacts = probe_sessions(world)
     chk.notes["session_cfg"] = {k: sfacts[k] for k in SFACTS}
     chk.notes["session_cfg_detail"] = sfacts["_detail"]
-    ok, why = chk.prove(gen_lean(facts, obls, sfacts))
+    shp = streamer_shape()
+    shape = shape_obligations(shp, facts, progs) if shp else None
+    chk.notes["streamer_shape"] = {"tokens": " ".join(f"{t}@{ln}" for t, ln in shp) if shp else None,
+                                   "close_safe": shape and shape["safe"], "close_at_traced_yields": shape and shape["dynamic"]}
+    ok, why = chk.prove(gen_lean(facts, obls, sfacts, shape))
     chk.cov["trusted_base"] = [
         "Lean 4.33 kernel; axioms propext, Classical.choice, Quot.sound (audited per run via #print axioms)",
         "thread programs of lean/Bptk/Core/C18.lean (run-step / run-steps / stream-steps handlers, bptk.run_step, lock/unlock/is_locked/try_lock) at the granularity of accesses to the lock flag, the session clock, the simulation call and the chunks handed to the client; tied to /repo by the six probed mechanism facts, by the per-run obligations prog_* (the accesses recorded from each handler run alone under sys.settrace against a recording stub — completion, error, client-gone, refusal and stop-time paths — equal the model's program, decided in the kernel) and by the label-by-label and outcome comparison of every forced schedule",
@@ -1689,6 +1884,32 @@ def _run(chk, world):
         mout = m2.split("|")[0].split(",")
         if sdiff is None and (mout != obs or mflag != r["flag_after"]):
             sdiff = (r, f"events {','.join(ev + live)}: model {mout} flag_after={mflag} impl {obs} flag_after={r['flag_after']}", sreq_lines[2 * j + 1], m2)
+    # the session clock machine: results log per session state, clock
+    clines, cmeta = [], []
+    for r in sruns:
+        if "error" in r or r["nosession"]:
+            continue
+        ev, real, epoch = clock_events(r)
+        clines.append(f"crun {cfg4} 1 2 {','.join(ev)}")
+        cmeta.append((r, ev, real, epoch))
+    creplies = drive("C18", clines) if clines else []
+    cdiff = None
+    for (r, ev, real, epoch), rep in zip(cmeta, creplies):
+        mlog, fin = rep.split("|")
+        mlog = [tuple(int(x) for x in e.split(".")) for e in mlog.split(";") if e]
+        f = dict(x.split("=") for x in fin.split(";"))
+        same = mlog == real and int(f["epoch"]) == epoch and (f["session"] == "0" or int(f["clock"]) == r["clock_after"])
+        if not same and cdiff is None:
+            cdiff = (r, f"events {','.join(ev)}: model log {mlog} clock={f['clock']} epoch={f['epoch']} impl log {real} clock={r['clock_after']} epoch={epoch}", rep)
+    chk.cov["traces_validated_against_impl_session_clock"] = len(cmeta)
+    mixed = next(((r, real) for r, ev, real, epoch in cmeta if r["which"] == "begin" and r["sreq"] == "done" and
+                  len({e for e, _ in real}) > 1 and r["scn"].kinds[0][0] == "r"), None)
+    if mixed:
+        r, real = mixed
+        chk.notes["session_clock_under_begin_session"] = {
+            "what": "begin-session while a run-steps 3 holds the lock (informational: session requests are outside the statement's quantifier)",
+            "after_actions": r["k"], "results_log (session state, time)": real, "response_times_of_the_run-steps": r["out"][0]["times"],
+            "run-step that arrived next": r["out"][1]["status"]}
     dist["session lifecycle: stream (stop 1) and run-steps 3 x every action boundary x {end-session, begin-session, restore} x {completion, "
          "error in the next step, client gone (stream)} + begin-session at source-line positions of a request started without a session; "
          "then a run-step, then the liveness probe"] = len(sruns)
@@ -1742,7 +1963,15 @@ def _run(chk, world):
             chk.add_finding(probe_keys[k], f"probe {k} = false but no schedule explored exhibits the violation",
                             {"probe": k, "solo_labels": facts["_solo_labels"]}, found_input=False)
     smutex_ok, sleak_free = gen_sessions(sfacts)[1:]
-    for key, (r, text) in sfound.items():
+    base_of = {"gone": ("unlockOnClientGone", "client-gone-leaves-lock"), "error": ("unlockOnError", "error-leaves-lock"),
+               "complete": ("streamUnlocksOnDone", "stream-completion-leaves-lock")}
+    for key, (r, text) in list(sfound.items()):
+        fact, bkey = base_of.get(r.get("ending"), (None, None))
+        if key == "lock-outlives-session" and fact and not facts[fact]:
+            # the request leaks with this ending whatever the session does: reported under its cause (once)
+            if bkey not in found:
+                chk.add_finding(bkey, text, session_replay_of(r, text))
+            continue
         chk.add_finding(key, text, session_replay_of(r, text))
     if not smutex_ok and "session-request-resets-lock" not in sfound:
         chk.add_finding("session-request-resets-lock", f"session facts {chk.notes['session_cfg']}: mutual exclusion under session requests is refuted "
@@ -1756,7 +1985,24 @@ def _run(chk, world):
                         found_input=False)
     elif sdiff is not None:
         chk.notes["session_model_diff_under_violation"] = sdiff[1]
-    badp = [o for o in obls if not o["ok"]]
+    if cdiff is not None and not (sfound or found):
+        r, d, rp = cdiff
+        chk.add_finding("correspondence", f"session clock machine and implementation disagree: {d}", dict(session_replay_of(r, d), model_reply=rp),
+                        found_input=False)
+    elif cdiff is not None:
+        chk.notes["session_clock_diff_under_violation"] = cdiff[1]
+    if shape is not None:
+        bad_dyn = [d for d in shape["dynamic"] if not d["agree"]]
+        if (not shape["agree"] or bad_dyn) and not (found or sfound):
+            chk.add_finding("correspondence", "generator shape: close() as interpreted on the token list read off the streamer differs from the real "
+                            f"generator: shape fact closeSafe={shape['safe']} probe unlockOnClientGone={facts['unlockOnClientGone']}; traced gone paths: {bad_dyn}",
+                            {"shape": chk.notes["streamer_shape"]}, found_input=False)
+        elif not shape["agree"] or bad_dyn:
+            chk.notes["shape_diff_under_violation"] = {"agree": shape["agree"], "paths": bad_dyn}
+    elif not (found or sfound):
+        chk.add_finding("correspondence", "no generator found in _stream_steps_resource: the streamer shape cannot be read off the source",
+                        {}, found_input=False)
+    badp = [o for o in obls if not o["ok"] or o.get("exc")]
     if badp and not found:
         o = badp[0]
         chk.add_finding("correspondence", f"thread program {o['name']}: the accesses recorded from the handler run alone against the stub differ "
@@ -1768,9 +2014,11 @@ def _run(chk, world):
     if dis and not found:
         chk.add_finding("correspondence", f"mechanism facts read off the traced programs disagree with the probes on the instrumented instance: {dis}",
                         {"facts": {k: facts[k] for k in FACTS}, "from_traced_programs": stub_facts}, found_input=False)
-    if not ok:
+    if not ok and not (found or sfound):
         chk.add_finding("obligation", f"proof obligations of C18 no longer check: {why}",
                         {"theorem": "Bptk.C18.Gen.* / Bptk.Props.C18", "detail": why}, found_input=False)
+    elif not ok:
+        chk.notes["obligation_under_violation"] = why
     if first_diff is not None and not found:
         scn, rec, mode, d, rq, rp = first_diff
         chk.add_finding("correspondence", f"model and implementation disagree on {scn.kinds_str()}: {d}",
